@@ -135,6 +135,13 @@ def _impl(tier, seed, search):
         Tm = np.eye(4); Tm[:3, :3] = R; Tm[:3, 3] = t
         ref = R @ p
         from spatialmath import Quaternion
+        # unit quaternions built from data given to 3 - 4 digits ([0.707, 0.707, 0, 0] ...): normalised exactly, so lengths are preserved to 1e-9
+        if i < 6:
+            qd_ = np.array([(0.707, 0.707, 0, 0), (0.924, 0, 0.383, 0), (0.5, 0.5, 0.5, 0.5003), (0.8, 0, 0, 0.6001), (0.99995, 0.01, 0, 0), (0.7071, 0, 0.7071, 0)][i], float); pd_ = np.array([3.0, -4.0, 12.0])
+            ok, r = L.noraise('UQ(3-digit data)*p', lambda: (np.asarray(UnitQuaternion(qd_) * pd_, float).flatten(), np.asarray(UnitQuaternion(qd_).vec, float)), dict(q=qd_, p=pd_), 'UnitQuaternion(rounded data) * point')
+            if ok:
+                L.close('UQ(3-digit data):unit', float(np.linalg.norm(r[1])), 1.0, TOL, 1.0, dict(q=qd_), what='a UnitQuaternion built from rounded components is not of unit norm to 1e-9', sig='UQ:rounded-data'); L.close('UQ(3-digit data)*p:length', float(np.linalg.norm(r[0])), 13.0, TOL, 13.0, dict(q=qd_, p=pd_), what='rotating a point by a UnitQuaternion built from rounded components changes its length', sig='UQ:rounded-data')
+                L.close('UQ(3-digit data)*p', r[0], b.q2r(qd_ / np.linalg.norm(qd_)) @ pd_, TOL, 13.0, dict(q=qd_, p=pd_), sig='UQ:rounded-data')
         # half turns about fixed general axes (trace + 1 rounds to either side of zero), built two ways, entering the quaternion routes
         if i < 40:
             ah_ = np.array([(1, 2, 3), (1, 1, 0), (2, -1, 2), (3, 4, 12), (1, -4, 8), (2, 3, 6), (-1, 2, 2), (1, 1, 1), (4, 3, 1), (1, 0, 1)][i % 10], float); ah_ = ah_ / np.linalg.norm(ah_)
